@@ -535,3 +535,6 @@ def run(ctx):
         ctx.stats.merge(st_)
     ctx.extra['grid'] = (f'{len(g)} directed cases: {len(INSIDER)} insider variants x message 3/4 x role x PSK/RSA x 2 identity kinds, '
                          f'{len(MITM)} man-in-the-middle edits x message 1/2 x 3 positions, {len(CRED)} credential faults')
+    if not ctx.quick:
+        import sys as _sys
+        common.hyp_fuzz_stage(ctx, _sys.modules[__name__], 'cases()')
